@@ -7,7 +7,7 @@ EXPLANATION = ("Bounded symbolic checking (engine S, REAL mode) of the *entry-po
 FUNCTIONS = ["RandomTools::{qNorm (1 and 3 arguments),pNorm (3 arguments, wrapper only),pGamma,pChisq,qGamma,qChisq (domain test),incompleteGamma (domain tests),pBeta/incompleteBeta (domain tests, ends of the support),qBeta (domain tests, ends of the support)}"]
 BOUNDS = ("all real arguments in each invalid region (negative shape / rate, probability outside the working range, argument outside the support) and at the ends of the support; normal quantile: all probabilities in [1e-20, 0.5) for the reflection and "
           "location-scale identities, all real mu and sigma > 0; normal cdf wrapper at three concrete standardised points with symbolic location and scale")
-OUTSIDE = ["accuracy against a high-precision reference, monotonicity in the argument, staying within [0,1], shape recurrences, and inversion cdf(quantile(p)) = p for every family (the numeric kernels: series, continued fractions, Newton / AS 109 / AS 91 iterations)",
+OUTSIDE = ["accuracy against a high-precision reference, shape recurrences and inversion cdf(quantile(p)) = p for every family; monotonicity and range outside the two closed-form kernels of the closed-form-kernels job (the other regions of the normal cdf use exp and truncation, the gamma/beta kernels are series, continued fractions, Newton / AS 109 / AS 91 iterations); monotonicity of the normal quantile across 1/2 (needs a numeric bracket of log 4 that the axioms do not provide; natively qNorm(0.5) = 1.5e-8)",
            "NaN and infinite arguments (REAL mode)", "the sentinel never being returned inside the valid region (would need the kernels)"]
 ASSUMPTIONS = BASE_ASSUMPTIONS + ["lgamma is treated as an arbitrary real function (its value is never inspected on the explored paths)"]
 LEVEL_TEXT = ("Bounded symbolic checking of the domain handling only: arguments outside the domain give exactly the documented exception or sentinel, the ends of the support give 0 / 1, qGamma/pChisq/qNorm(mu,sigma)/pNorm(mu,sigma) forward as documented, "
@@ -19,5 +19,6 @@ JOBS = [
     Job("normal", "C08.cpp", ["HLO=0", "HHI=0"], env=E, budget_s=100, desc="qNorm sentinel region, reflection, location-scale wrapper"),
     Job("gamma-chisq", "C08.cpp", ["HLO=1", "HHI=1"], env=E, budget_s=100, desc="pGamma/pChisq/qChisq/qGamma/incompleteGamma: invalid regions, special values, forwarding"),
     Job("beta", "C08.cpp", ["HLO=2", "HHI=2"], env=E, budget_s=100, desc="pBeta/qBeta: invalid regions raise, ends of the support"),
-    Job("pnorm-wrapper", "C08.cpp", ["HLO=3", "HHI=3"], env=E, budget_s=100, desc="pNorm(x, mu, sigma) = pNorm((x-mu)/sigma)"),
+    Job("closed-form-kernels", "C08.cpp", ["HLO=4", "HHI=4"], env=E, budget_s=200, replay_tol=1e-12, desc="normal cdf, central region |x|<=0.67448975 (a rational function): derivative >= 0 everywhere (symbolic differentiation), inside [0,1], on the right side of 1/2, reflection; normal quantile: non-decreasing on each side of 1/2 (two-point query through the sqrt/log monotonicity axioms and the rational tail formula)"),
+    Job("pnorm-wrapper", "C08.cpp", ["HLO=5", "HHI=5"], env=E, budget_s=100, desc="pNorm(x, mu, sigma) = pNorm((x-mu)/sigma)"),
 ]
